@@ -17,7 +17,7 @@ done
 for d in seeded/*/; do
   id=$(basename $d)
   [ -f $d/patch.diff ] || continue
-  echo "$id" | grep -Eq "$ONLY" || continue
+  echo "$id" | grep -Eq -- "$ONLY" || continue
   checks=$(/venv/bin/python -c "import json;m=json.load(open('$d/meta.json'));print(','.join(m['caught_by']) or m['property'])")
   demo=$d/demo.py; [ -n "$ND" ] && demo="-"
   res=$(tools/try_mutant.sh $d/patch.diff $demo "$checks" quick $NT 2>&1 | grep -E "^DEMO|^TESTS|^CHECK|^RESULT" | tr '\n' ';' | cut -c1-600)
